@@ -9,7 +9,7 @@ ID = 'C03'
 LEVEL = 'exploration'
 BUDGET = {'quick': 150, 'thorough': 1500}
 CHUNK = 4
-RULE = ('Cases: an ancestor of 1..3 contigs; substitution sites more than (k-1)/2 apart and at least (k-1)/2 from contig '
+RULE = ('Cases: an ancestor of 1..3 contigs (a few per run of 45..200 kb with thousands of sites); substitution sites more than (k-1)/2 apart and at least (k-1)/2 from contig '
         'ends (a share of sites at exactly the minimum distances, and contigs of exactly k or k+1 bases whose only site sits at the centre); 2..10 samples, 2..4 alleles per site; contigs written '
         'in random order and orientation per sample.  The generator checks admissibility (every canonical split k-mer over '
         'the union of all sample sequences occurs at one locus, none self-complementary).  `ska align --min-freq 1` must '
@@ -19,7 +19,7 @@ RULE = ('Cases: an ancestor of 1..3 contigs; substitution sites more than (k-1)/
 ASSUMPTIONS = ['the planted truth is the oracle; no model of ska is involved',
                'uniqueness is required over the union of samples, see DESIGN.md section 8']
 REQUIRED = {t: ['route:skf', 'route:fasta', 'sites_at_min_gap', 'sites_at_min_end', 'multi_contig', 'contigs_of_length_k_or_k+1', 'parallel_build_path',
-                'names_not_in_sorted_order', 'output_to_existing_longer_file'] for t in ('quick', 'thorough')}
+                'names_not_in_sorted_order', 'output_to_existing_longer_file', 'cases_with_1024+_sites'] for t in ('quick', 'thorough')}
 
 
 def builds(tier):
@@ -36,8 +36,11 @@ def plan(tier, seed, rng, scale):
             descs.append({'k': 17, 'route': 'fasta', 'seed': rng.getrandbits(32)})
         else:
             descs.append({'k': rng.choice(G.ALL_K[1:]) if rng.random() < 0.9 else 5, 'route': 'skf', 'seed': rng.getrandbits(32)})
+    for i in range(int((5 if tier == 'quick' else 40) * max(scale, 0.25))):
+        descs.insert(30 + 11 * i, {'k': rng.choice([21, 31, 33]), 'route': 'skf', 'seed': rng.getrandbits(32),
+                                   'large': rng.choice([60000, 100000] if tier == 'quick' else [60000, 100000, 200000])})
     for i, d in enumerate(descs):
-        d['chk'] = (i % 8 == 0)
+        d['chk'] = (i % 8 == 0) and not d.get('large')
     return descs
 
 
@@ -58,15 +61,18 @@ def admissible(ss, k):
     return True
 
 
-def gen(rng, k):
+def gen(rng, k, large=None):
     h = (k - 1) // 2
-    for _attempt in range(400):
+    for _attempt in range(400 if not large else 6):
         ns = rng.choice([2, 3, 4, 5, 6, 7, 8, 9, 10, 10, 10])
         ncont = rng.randint(1, 3)
         maxlen = 6 * k if k > 7 else 4 * k
+        if large:
+            # thousands of sites: output passes beyond their small-input paths (blocks of 1024 / 4096 columns, ...)
+            ns, ncont, maxlen = rng.randint(2, 4), rng.randint(1, 2), large
         if k == 5:
             ncont, maxlen = 1, 14       # unique split 5-mers are scarce: 256 arm pairs
-        contigs = [G.rseq(rng, rng.randint(k + 2, maxlen)) for _ in range(ncont)]
+        contigs = [G.rseq(rng, rng.randint(k + 2 if not large else 3 * large // 4, maxlen)) for _ in range(ncont)]
         if k > 5 and rng.random() < 0.3:
             # a contig of exactly k (or k+1) bases: its centre is exactly (k-1)/2 from both ends
             contigs.insert(rng.randrange(len(contigs) + 1), G.rseq(rng, k + rng.choice([0, 0, 1])))
@@ -110,7 +116,7 @@ def run_case(desc, ctx):
     res = Result()
     k = desc['k']
     rng = random.Random(desc['seed'])
-    g = gen(rng, k)
+    g = gen(rng, k, desc.get('large'))
     if g is None:
         res.count('generator_gave_up')
         return res
@@ -175,6 +181,9 @@ def run_case(desc, ctx):
                         'k=%d ns=%d route=%s (%s): %s' % (k, ns, desc['route'], variant, '; '.join(bad)),
                         {'contigs': contigs, 'samples': ss, 'truth': truth, 'got': got})
     res.count('planted_sites', len(truth))
+    if len(truth) > 1024:
+        res.count('cases_with_1024+_sites')
+        res.see('large_sites', len(truth))
     res.count('sites_at_min_gap', stats['min_gap'])
     res.count('sites_at_min_end', stats['min_end'])
     res.count('contigs_of_length_k_or_k+1', stats.get('short_contig', 0))
